@@ -44,15 +44,9 @@ func Matches(pass *analysis.Pass, qs ...pattern.Pattern) iter.Seq2[ast.Node, *pa
 				continue
 			}
 
-			if len(q.RootCallSymbols) != 0 {
+			if callees, ok := rootCallees(pass, q); ok {
 				index := pass.ResultOf[typeindexanalyzer.Analyzer].(*typeindex.Index)
-				for _, isym := range q.RootCallSymbols {
-					var obj types.Object
-					if isym.Type == "" {
-						obj = index.Object(isym.Path, isym.Ident)
-					} else {
-						obj = index.Selection(isym.Path, isym.Type, isym.Ident)
-					}
+				for _, obj := range callees {
 					for c := range index.Calls(obj) {
 						node := c.Node()
 						if m, ok := Match(pass, q, node); ok {
@@ -78,6 +72,30 @@ func Matches(pass *analysis.Pass, qs ...pattern.Pattern) iter.Seq2[ast.Node, *pa
 			}
 		}
 	}
+}
+
+// rootCallees returns the objects whose call sites are the only candidates for q.
+// It reports false if the candidates cannot be found through the index of calls:
+// q has no root call symbols, or one of them names a type, whose "calls" are conversions.
+func rootCallees(pass *analysis.Pass, q pattern.Pattern) ([]types.Object, bool) {
+	if len(q.RootCallSymbols) == 0 {
+		return nil, false
+	}
+	index := pass.ResultOf[typeindexanalyzer.Analyzer].(*typeindex.Index)
+	objs := make([]types.Object, 0, len(q.RootCallSymbols))
+	for _, isym := range q.RootCallSymbols {
+		var obj types.Object
+		if isym.Type == "" {
+			obj = index.Object(isym.Path, isym.Ident)
+		} else {
+			obj = index.Selection(isym.Path, isym.Type, isym.Ident)
+		}
+		if _, ok := obj.(*types.TypeName); ok {
+			return nil, false
+		}
+		objs = append(objs, obj)
+	}
+	return objs, true
 }
 
 func Match(pass *analysis.Pass, q pattern.Pattern, node ast.Node) (*pattern.Matcher, bool) {
